@@ -28,10 +28,11 @@ const (
 
 var layoutNames = []string{"A", "A+B", "A+nofile+nomapping-loc", "nofile-main+B", "A+[vdso]@0", "url-file+B", "dangling+A+B", "no mappings", "A+A2 (same file)", "fake mapping 0-0 with a file name"}
 var flagNames = []string{"none", "m0:F", "m0:file,m1:all", "m0:line,m1:F"}
-var preNames = []string{"unsymbolized", "ids 1,2,3", "ids 2,4,7", "ids 3,1,2", "ids 100,200,300", "ids 1,2,5"}
+// index 6 (the largest id there is: no fresh id is left) is used by the end-to-end family only
+var preNames = []string{"unsymbolized", "ids 1,2,3", "ids 2,4,7", "ids 3,1,2", "ids 100,200,300", "ids 1,2,5", "ids 1,2,2^64-1"}
 var srcNames = []string{"no sources", "file->/debug/pprof, offset 0", "buildid->/pprof/heap, offset +0x100", "file->[local file, /x/y], offset -0x800", "file->/debug/pprof, offset -0x1800 (overflows)"}
 
-var preIDs = [][3]uint64{{}, {1, 2, 3}, {2, 4, 7}, {3, 1, 2}, {100, 200, 300}, {1, 2, 5}}
+var preIDs = [][3]uint64{{}, {1, 2, 3}, {2, 4, 7}, {3, 1, 2}, {100, 200, 300}, {1, 2, 5}, {1, 2, ^uint64(0)}}
 
 // Case is the generator coordinates of one execution.
 type Case struct {
